@@ -104,7 +104,7 @@ def m_from_elem(it, S, t, callee, args):
 @model("alloc::slice::<impl [T]>::to_vec", "<alloc::vec::Vec<T> as core::convert::From<&[T]>>::from")
 def m_to_vec(it, S, t, callee, args):
     ln = it.len_of_ref(S, args[0], it.op_type(t["args"][0]))
-    R = ("model", "to_vec", it.deref_value(S, args[0], 1), ("site", it.site()))
+    R = ("model", "to_vec", it.deref_value(S, args[0], 1, it.op_type(t["args"][0])), ("site", it.site()))
     set_ty(R, tykey(Place(t["dest"]).ty))
     return it.with_len(R, ln)
 
@@ -434,7 +434,7 @@ def m_view(it, S, t, callee, args):
 # ----------------------------------------------------------------------------- value copies
 @model("<bytes::bytes::Bytes as core::clone::Clone>::clone", "<alloc::string::String as core::clone::Clone>::clone")
 def m_clone_value(it, S, t, callee, args):
-    v = it.deref_value(S, args[0], 1)
+    v = it.deref_value(S, args[0], 1, it.op_type(t["args"][0]))
     return v
 
 
@@ -444,7 +444,7 @@ def m_clone_generic(it, S, t, callee, args):
     ty = it.op_type(t["args"][0])
     inner = ty.get("to", ty)
     if inner.get("k") in ("uint", "int", "bool", "char") or (inner.get("k") == "adt" and _is_unit_enum(it, inner.get("adt"))):
-        v = it.deref_value(S, args[0], 1)
+        v = it.deref_value(S, args[0], 1, ty)
         if sv_type(v) is None and isinstance(v, tuple) and v[0] not in ("agg", "ref", "upd", "vagg"):
             set_ty(v, tykey(inner))
         return v
@@ -511,7 +511,7 @@ def m_minmax(it, S, t, callee, args):
     a, b = args
     ty = it.op_type(t["args"][0])
     if ty.get("k") == "ref":
-        va, vb = it.deref_value(S, a, 1), it.deref_value(S, b, 1)
+        va, vb = it.deref_value(S, a, 1, ty), it.deref_value(S, b, 1, it.op_type(t["args"][1]))
         inner = tykey(ty["to"])
         if sv_type(va) is None:
             set_ty(va, inner)
@@ -606,7 +606,7 @@ def m_wrapping_op(it, S, t, callee, args):
 def m_ref_sub(it, S, t, callee, args):
     # the forwarding impls of Sub for references perform the primitive subtraction (checked when
     # overflow checks are on); treated as checked
-    a, b = it.deref_value(S, args[0], 1), it.deref_value(S, args[1], 1)
+    a, b = it.deref_value(S, args[0], 1, it.op_type(t["args"][0])), it.deref_value(S, args[1], 1, it.op_type(t["args"][1]))
     ty = tykey(Place(t["dest"]).ty)
     for x in (a, b):
         if sv_type(x) is None:
@@ -616,6 +616,17 @@ def m_ref_sub(it, S, t, callee, args):
               "%s - %s" % (it.describe(S, a), it.describe(S, b)), callee="<&T as Sub<&T>>::sub")
     S.add_le(b, a, 0)
     return ("bin", "Sub", ty, a, b)
+
+
+@model("core::cmp::impls::<impl core::cmp::Ord for u32>::cmp", "core::cmp::impls::<impl core::cmp::Ord for usize>::cmp",
+       "core::cmp::impls::<impl core::cmp::Ord for u64>::cmp", "core::cmp::impls::<impl core::cmp::Ord for u8>::cmp")
+def m_int_cmp(it, S, t, callee, args):
+    # total order on the integers: a pure function of the two values, in this argument order
+    a = it.deref_value(S, args[0], 1, it.op_type(t["args"][0]))
+    b = it.deref_value(S, args[1], 1, it.op_type(t["args"][1]))
+    R = ("model", "cmp", a, b)
+    set_ty(R, tykey(Place(t["dest"]).ty))
+    return R
 
 
 # ----------------------------------------------------------------------------- Option / Result / Try
@@ -643,8 +654,8 @@ PREFIX_MODELS.append((lambda name, c: name.endswith("::from_residual"), _from_re
 @model("core::option::Option::is_some", "core::option::Option::is_none", "core::result::Result::is_ok", "core::result::Result::is_err")
 def m_is_variant(it, S, t, callee, args):
     name = norm_name(callee.get("pretty"))
-    v = it.deref_value(S, args[0], 1)
     ty = it.op_type(t["args"][0])
+    v = it.deref_value(S, args[0], 1, ty)
     if ty.get("k") == "ref" and sv_type(v) is None:
         set_ty(v, tykey(ty["to"]))
     d = it.discr_of(S, v, ty.get("to", ty))
@@ -689,7 +700,7 @@ def m_unwrap_or(it, S, t, callee, args):
 @model("core::option::Option::as_ref", "core::option::Option::as_mut")
 def m_as_ref(it, S, t, callee, args):
     # Option<&T> with the same discriminant as the pointee option
-    v = it.deref_value(S, args[0], 1)
+    v = it.deref_value(S, args[0], 1, it.op_type(t["args"][0]))
     loc = it.target(args[0])
     R = ("model", "as_ref", v)
     set_ty(R, tykey(Place(t["dest"]).ty))
@@ -703,9 +714,9 @@ def m_as_ref(it, S, t, callee, args):
 def m_eq_generic(it, S, t, callee, args):
     name = norm_name(callee.get("pretty"))
     neg = name.endswith("::ne")
-    a = it.deref_value(S, args[0], 3)
-    b = it.deref_value(S, args[1], 3)
     ty = it.op_type(t["args"][0])
+    a = it.deref_value(S, args[0], 3, ty)
+    b = it.deref_value(S, args[1], 3, it.op_type(t["args"][1]))
     inner = ty
     while inner.get("k") == "ref":
         inner = inner["to"]
@@ -827,8 +838,8 @@ def m_counted_next(it, S, t, callee, args):
 @model("std::collections::hash::map::HashMap::get", "std::collections::hash::map::HashMap::contains_key")
 def m_map_get(it, S, t, callee, args):
     # pure observer: equal map value and equal key give the same result
-    mapv = it.deref_value(S, args[0], 1)
-    key = it.deref_value(S, args[1], 2)
+    mapv = it.deref_value(S, args[0], 1, it.op_type(t["args"][0]))
+    key = it.deref_value(S, args[1], 2, it.op_type(t["args"][1]))
     which = norm_name(callee.get("pretty")).split("::")[-1]
     R = ("model", "HashMap::" + which, mapv, key)
     set_ty(R, tykey(Place(t["dest"]).ty))
@@ -839,7 +850,7 @@ def m_map_get(it, S, t, callee, args):
 def m_map_get_mut(it, S, t, callee, args):
     loc = it.target(args[0])
     mapv = S.read(loc)
-    key = it.deref_value(S, args[1], 2)
+    key = it.deref_value(S, args[1], 2, it.op_type(t["args"][1]))
     R = ("model", "HashMap::get_mut", mapv, key, ("site", it.site()))
     set_ty(R, tykey(Place(t["dest"]).ty))
     S.havoc(loc, it.site())
@@ -850,7 +861,7 @@ def m_map_get_mut(it, S, t, callee, args):
 def m_map_remove(it, S, t, callee, args):
     loc = it.target(args[0])
     mapv = S.read(loc)
-    key = it.deref_value(S, args[1], 2)
+    key = it.deref_value(S, args[1], 2, it.op_type(t["args"][1]))
     R = ("model", "HashMap::remove", mapv, key, ("site", it.site()))
     set_ty(R, tykey(Place(t["dest"]).ty))
     S.havoc(loc, it.site())
